@@ -331,6 +331,18 @@ def decode_variable""")]),
            """    if "records_per_chunk" in backend_options:
         open_alos2.__defaults__[1]["records_per_chunk"] = backend_options["records_per_chunk"]
     root = io.open(path, **backend_options)""")]),
+    ("c09_lowlevel_atomic", "C09", "quiet",
+     "benign control: atomic write through raw descriptors (mkstemp + os.write + fsync + replace)",
+     [(CA, """    local.write_text(encoded)""", """    import os
+    import tempfile
+
+    fd, tmp = tempfile.mkstemp(dir=local.parent, prefix=local.name + ".", suffix=".tmp")
+    try:
+        os.write(fd, encoded.encode())
+        os.fsync(fd)
+    finally:
+        os.close(fd)
+    os.replace(tmp, local)""")]),
     ("c10_stage_in_tmp", "C10", "violation",
      "a copy of the last index is kept in the system temp dir 'for diagnostics': opening writes "
      "outside the user cache directory",
